@@ -9,6 +9,7 @@ import (
 	"regexp"
 	"sort"
 	"strings"
+	"sync"
 	"time"
 
 	interp "symgo"
@@ -47,9 +48,9 @@ type PropSpec struct {
 
 type Finding struct {
 	Property string `json:"property"`
-	Run      string `json:"run"`      // regexp on run name
-	Label    string `json:"label"`    // regexp on violation label
-	Msg      string `json:"msg"`      // optional regexp on panic message
+	Run      string `json:"run"`   // regexp on run name
+	Label    string `json:"label"` // regexp on violation label
+	Msg      string `json:"msg"`   // optional regexp on panic message
 	What     string `json:"what"`
 }
 
@@ -86,17 +87,17 @@ func (f Finding) matches(prop, run string, v interp.Violation) bool {
 // ---------------------------------------------------------------- native replay
 
 type ReplayFile struct {
-	Property  string            `json:"property"`
-	Run       string            `json:"run"`
-	Pkg       string            `json:"pkg"`
-	Files     []string          `json:"files"`
-	Fn        string            `json:"fn"`
-	Label     string            `json:"label"`
-	Kind      string            `json:"kind"`
-	Msg       string            `json:"msg,omitempty"`
-	Inputs    map[string]uint64 `json:"inputs"`
-	Params    map[string]int    `json:"params"`
-	Tries     int               `json:"tries,omitempty"`
+	Property string            `json:"property"`
+	Run      string            `json:"run"`
+	Pkg      string            `json:"pkg"`
+	Files    []string          `json:"files"`
+	Fn       string            `json:"fn"`
+	Label    string            `json:"label"`
+	Kind     string            `json:"kind"`
+	Msg      string            `json:"msg,omitempty"`
+	Inputs   map[string]uint64 `json:"inputs"`
+	Params   map[string]int    `json:"params"`
+	Tries    int               `json:"tries,omitempty"`
 }
 
 type replayer struct {
@@ -732,44 +733,67 @@ func replayMain(args []string) {
 
 // crossCheck re-discharges recorded assertion queries on z3-new and cvc5.
 func crossCheck(scripts []string, scratch string) (checked, disagreements int) {
-	// limit the volume: at most 200 scripts per run, evenly spread
+	// limit the volume: at most 120 scripts per run, evenly spread; each is
+	// re-decided by z3 5.1.0 and cvc5 under a 20 s limit, 12 at a time. A solver
+	// that gives up (unknown / timeout) neither confirms nor contradicts.
 	step := 1
-	if len(scripts) > 200 {
-		step = len(scripts) / 200
+	if len(scripts) > 120 {
+		step = len(scripts) / 120
+	}
+	type job struct {
+		i int
+		s string
+	}
+	jobs := make(chan job)
+	var mu sync.Mutex
+	var wg sync.WaitGroup
+	for w := 0; w < 12; w++ {
+		wg.Add(1)
+		go func() {
+			defer wg.Done()
+			for jb := range jobs {
+				s := jb.s
+				j := strings.LastIndex(s, "; expect ")
+				if j < 0 {
+					continue
+				}
+				want := strings.TrimSpace(s[j+len("; expect "):])
+				p := filepath.Join(scratch, fmt.Sprintf("x%d.smt2", jb.i))
+				body := "(set-option :produce-models true)\n" + stripPushPop(s[:j])
+				os.WriteFile(p, []byte(body), 0o644)
+				for _, sv := range [][]string{{"z3-new", "-T:20", p}, {"cvc5", "--tlimit=20000", p}} {
+					if _, err := exec.LookPath(sv[0]); err != nil {
+						continue
+					}
+					out, _ := exec.Command(sv[0], sv[1:]...).CombinedOutput()
+					got := ""
+					for _, l := range strings.Fields(string(out)) {
+						if l == "sat" || l == "unsat" || l == "unknown" {
+							got = l
+						}
+					}
+					if strings.Contains(string(out), "(error") {
+						got = "error"
+					}
+					mu.Lock()
+					if got == "sat" || got == "unsat" {
+						checked++
+						if got != want {
+							disagreements++
+							fmt.Printf("  cross-check: %s says %s, z3 said %s (%s)\n", sv[0], got, want, p)
+						}
+					}
+					mu.Unlock()
+				}
+				os.Remove(p)
+			}
+		}()
 	}
 	for i := 0; i < len(scripts); i += step {
-		s := scripts[i]
-		j := strings.LastIndex(s, "; expect ")
-		if j < 0 {
-			continue
-		}
-		want := strings.TrimSpace(s[j+len("; expect "):])
-		p := filepath.Join(scratch, fmt.Sprintf("x%d.smt2", i))
-		body := "(set-option :produce-models true)\n" + stripPushPop(s[:j])
-		os.WriteFile(p, []byte(body), 0o644)
-		for _, sv := range [][]string{{"z3-new", "-T:120", p}, {"cvc5", "--tlimit=120000", p}} {
-			if _, err := exec.LookPath(sv[0]); err != nil {
-				continue
-			}
-			out, _ := exec.Command(sv[0], sv[1:]...).CombinedOutput()
-			lines := strings.Fields(string(out))
-			got := ""
-			for _, l := range lines {
-				if l == "sat" || l == "unsat" || l == "unknown" {
-					got = l
-				}
-			}
-			if strings.Contains(string(out), "(error") {
-				got = "error"
-			}
-			checked++
-			if got != want && got != "unknown" && got != "" && got != "error" {
-				disagreements++
-				fmt.Printf("  cross-check: %s says %s, z3 said %s (%s)\n", sv[0], got, want, p)
-			}
-		}
-		os.Remove(p)
+		jobs <- job{i, scripts[i]}
 	}
+	close(jobs)
+	wg.Wait()
 	return
 }
 
